@@ -77,4 +77,38 @@ def cfgP : Cfg := { sin := .pipe, sout := .none, serr := .none, detached := fals
 example : cloexecd (parentRun cfgP
     [.fds 3 4, .val 0, .ok, .val 0, .ok, .fds 5 6, .val 0, .ok, .ok, .ok, .ok, .nbytes 0 0, .ok]).calls = [3, 4, 6] := by decide
 
+/-! ### Spawns issued from several threads: the window (recorded finding, not a theorem of absence)
+
+`known_findings.json`, C08 `concurrent-spawn-window`.  The statement "whether it is spawned ...
+concurrently with spawns on other threads" does **not** hold of this code, and the model shows why:
+the descriptors of a launch's pipes are inheritable from the `pipe()` call until the `fcntl` that marks
+the parent's end, and the child's end until this launch's own `fork` is over.  A `fork` issued by another
+thread at such a point hands them to an unrelated child.  `window c rs k` computes, from the modelled
+call sequence, what a fork issued after the first `k` calls would inherit; the harness reproduces every
+such point deterministically on the real code (an unrelated launch is run right after the k-th `pipe()`). -/
+
+/-- descriptors of this launch's pipes that a `fork` issued now -- by any thread -- would hand to its child -/
+def inheritableAfter : List Nat → List (SCall × SResp) → List Nat
+  | acc, [] => acc
+  | acc, (.pipe, .fds r w) :: rest => inheritableAfter (acc ++ [r, w]) rest
+  | acc, (.setfd fd fl, .ok) :: rest => inheritableAfter (if fl % 2 = 1 then acc.filter (· ≠ fd) else acc) rest
+  | acc, (.close fd, _) :: rest => inheritableAfter (acc.filter (· ≠ fd)) rest
+  | acc, _ :: rest => inheritableAfter acc rest
+
+/-- the window after the first k calls of a launch (each call consumes one answer) -/
+def window (c : Cfg) (rs : List SResp) (k : Nat) : List Nat :=
+  inheritableAfter [] (((parentRun c rs).calls.zip rs).take k)
+
+def rsP : List SResp := [.fds 3 4, .val 0, .ok, .val 0, .ok, .fds 5 6, .val 0, .ok, .ok, .ok, .ok, .nbytes 0 0, .ok]
+
+/-- **the window is real** (model-level witness of the recorded finding): in a launch with a piped stdin,
+    right after the stream's `pipe()` (call 6) and until the `fcntl` (call 8) both ends of the child's stdin
+    pipe -- 6 is the end the parent keeps -- would be inherited by a child forked by another thread; the
+    launch-status pipe has the same window (calls 1-4); at this launch's own fork only its child end is
+    inheritable, and afterwards nothing. -/
+theorem c08_concurrent_window_witness :
+    (parentRun cfgP rsP).pipes.pin = some (5, 6) ∧
+    (List.range 13).map (window cfgP rsP) = [[], [3, 4], [3, 4], [4], [4], [], [5, 6], [5, 6], [5], [5], [], [], []] := by
+  decide
+
 end Spawn
